@@ -24,10 +24,8 @@ TRUSTED = [
 ASSUMPTIONS = [
     "C02_validate_iff_rfc_partial / C02_error_class speak about FRESH trees (every node flagged LYD_NEW, none LYD_DEFAULT, no "
     "non-presence container without children: what a parser builds from a document without empty containers), about "
-    "schemas that satisfy vschema_ok (checked on every generated schema by the correspondence run) and uniq_plain (no "
-    "unique leaf with a default below a presence container or inside a case: outside of it the code departs from the RFC, "
-    "theorem C02_unique_default_refuted), and about the modelled rule set only (no when / must / leafref / "
-    "instance-identifier, no LYD_VALIDATE_* options, one module)",
+    "schemas that satisfy vschema_ok (checked on every generated schema by the correspondence run), and about the modelled "
+    "rule set only (no when / must / leafref / instance-identifier, no LYD_VALIDATE_* options, one module)",
     "type restrictions are a parameter (type_ok): the slices types / restrict / regex prove them; the parser's own checks "
     "(value of the type, list keys) are modelled as a pre-pass on the tree, the document level (unknown elements, key order "
     "in XML) is not",
@@ -39,33 +37,38 @@ MANIFEST = {
             "RFC 7950 rule (types 9, list keys 7.8.2, single instance 7.5/7.6, key uniqueness 7.8.2, configuration leaf-list "
             "values 7.7, one case per choice 7.9, mandatory leaf/anydata 7.6.5, mandatory choice 7.9.4, min-elements 7.7.5, "
             "max-elements 7.7.6, unique 7.8.3 with defaults in use 7.6.1), flag-free and order-free, read on the tree without "
-            "empty non-presence containers (7.5.1). ValidateImpl.v is lyd_validate() AS CODED for these rules: "
-            "lyd_validate_new (cases old/new with auto-deletion, default auto-deletion, duplicates ONLY for nodes flagged "
-            "LYD_NEW), the DFS of lyd_validate_subtree, lyd_validate_final_r / lyd_validate_siblings_schema_r (choices first, "
-            "first case with data), lyd_validate_mandatory / _minmax / _unique, implicit non-presence containers, and the "
-            "parser's type / key checks. Theorems: C02_validate_iff_rfc_partial (fresh tree: impl_parse_validate = Ok <-> "
-            "rfc_valid), C02_error_class (exactly one rule class violated -> that class with its RFC 7950 section 15 app-tag), "
-            "C02_verdict_perm_invariant (rfc_valid and the verdict on fresh trees are invariant under any permutation of "
-            "siblings at every level), C02_validate_iff_rfc_refuted (arbitrary flags: a tree with an un-flagged duplicate is "
-            "accepted - finding moved-node-dup-unchecked), C02_unique_default_refuted (a valid instance is rejected with "
-            "data-not-unique - finding unique-default-not-in-use). Tie: component validmodel runs lyd_validate_module and the "
-            "extracted impl_validate / rfc_valid on the same trees (the dump of a LYD_PARSE_ONLY parse with flags, and of "
-            "trees edited through the API and validated again): verdict, error class and app-tag must be equal, rfc_valid "
-            "must agree with the verdict, its violated rules with an independent Python reading of the RFC. Oracle validmut: "
-            "valid instance + one mutation per rule class (also must / when / leafref / instance-identifier) through XML, "
-            "JSON, shuffled siblings, parse+validate, parse-only + validate, lyd_new_path + validate, lyd_free_tree on the "
-            "validated valid instance + validate (deleting mutations): every route gives the verdict and class expected by "
-            "construction; plus duplicates next to leaf-list values whose node hashes collide (children_ht path of "
-            "lyd_validate_duplicates).",
+            "empty non-presence containers (7.5.1). ValidateImpl.v is lyd_validate() AS CODED for these rules (state after the "
+            "fixes 06232b2, ba1198e, 357db45): lyd_validate_new (cases old/new with auto-deletion, default auto-deletion incl. "
+            "the walk through nested default cases, duplicates ONLY for nodes flagged LYD_NEW), the DFS of "
+            "lyd_validate_subtree, lyd_validate_final_r / lyd_validate_siblings_schema_r (choices first, first case with data), "
+            "lyd_validate_mandatory / _minmax / _unique with lyd_val_uniq_dflt_in_use, implicit non-presence containers, and the "
+            "parser's type / key checks. Theorems: C02_validate_iff_rfc_partial (fresh tree, any well-formed schema: "
+            "impl_parse_validate = Ok <-> rfc_valid), C02_error_sound / C02_error_class (an error of class e only when rule class "
+            "e is violated; exactly one class violated -> that class with its RFC 7950 section 15 app-tag), "
+            "C02_verdict_perm_invariant (rfc_valid, and the verdict on fresh trees, are invariant under any permutation of "
+            "siblings at every level), C02_validate_iff_rfc_refuted (arbitrary flags: an UN-FLAGGED duplicate is accepted - "
+            "validation is incremental; since 06232b2 the public insert functions set the flag), C02_regressions (the witnesses "
+            "of the fixed findings unique-default-not-in-use and stale-nested-default-case now behave as the RFC says). Tie: "
+            "component validmodel runs lyd_validate_module and the extracted impl_validate / rfc_valid on the same trees (the "
+            "dump of a LYD_PARSE_ONLY parse with flags, and of trees edited through the API - new path, free, change, move "
+            "between list entries, duplicate + insert - and validated again): verdict, error class and app-tag must be equal, "
+            "rfc_valid must agree with the verdict (for edited trees: of the resulting explicit content), its violated rules "
+            "with an independent Python reading of the RFC. Oracle validmut: valid instance + one mutation per rule class (also "
+            "must / when on nodes, choices and cases / leafref / instance-identifier) through XML, JSON, LYB, shuffled siblings, "
+            "parse+validate, parse-only + validate, lyd_new_path + validate, lyd_free_tree on the validated valid instance + "
+            "validate: every route gives the verdict and class expected by construction; duplicates next to leaf-list values "
+            "whose node hashes collide; lists with several unique statements, 3+ entries and incomplete earlier sets; the "
+            "witnesses of the fixed findings as regression cases.",
     "note": "PARTIAL. In Coq: the XPath-free fragment only; when / must / leafref / instance-identifier require-instance, "
             "config/state placement (LYD_PARSE_NO_STATE / LYD_VALIDATE_NO_STATE) and a node disabled by if-feature are covered by "
-            "the oracle (by construction), not by the models; input/output placement (RPC / action trees) is not covered. Fresh trees only (non-fresh trees: the refuted theorem); trees with explicit empty non-presence containers "
-            "are outside the theorem (covered by the correspondence run). The validation diff, LYD_VALIDATE_NO_STATE / "
-            "OPERATIONAL / MULTI_ERROR, RPC / notification validation, extension data (schema-mount, structure), several "
-            "modules are not modelled. The implicit default nodes are not materialised (WithDefaults slice): schemas where a "
-            "leaf-list has both defaults and min/max-elements are excluded. The children_ht path and the linear path of "
-            "lyd_validate_duplicates are one model function. Known findings: moved-node-dup-unchecked, "
-            "unique-default-not-in-use, instid-notfound-rc.",
+            "the oracle (by construction), not by the models; input/output placement (RPC / action trees) is not covered. Fresh "
+            "trees only (arbitrary flags: the refuted theorem); trees with explicit empty non-presence containers are outside the "
+            "theorem (covered by the correspondence run). The validation diff, LYD_VALIDATE_NO_STATE / OPERATIONAL / MULTI_ERROR, "
+            "RPC / notification validation, extension data (schema-mount, structure), several modules are not modelled. The "
+            "implicit default nodes are not materialised (WithDefaults slice): schemas where a leaf-list has both defaults and "
+            "min/max-elements are excluded. The children_ht path and the linear path of lyd_validate_duplicates are one model "
+            "function. Known findings: instid-notfound-rc, empty-np-container-dupcase, lyb-when-not-evaluated; fixed: "
+            "moved-node-dup-unchecked (06232b2), unique-default-not-in-use (ba1198e), stale-nested-default-case (357db45).",
     "technique": "Coq proof about a transcribed functional model against an RFC-derived specification + differential "
                  "correspondence on libyang trees (with flags) + metamorphic / by-construction API oracle",
 }
